@@ -8,7 +8,7 @@ lifecycle; every observation channel compared after every step.
 from __future__ import annotations
 
 from sim.rng import Stream
-from sim.terms import XSD, T, key, skey, tkey, u
+from sim.terms import EX, XSD, T, key, skey, tkey, u
 
 ID = "C02"
 LEVEL = "exploration"
@@ -146,6 +146,7 @@ def execute(trace, ctx):
 
     from rdflib import ConjunctiveGraph, Dataset, Graph
     from rdflib.graph import DATASET_DEFAULT_GRAPH_ID
+    from rdflib.paths import AlternativePath
     from rdflib.plugins.stores.memory import Memory
     from rdflib.term import URIRef
 
@@ -267,6 +268,16 @@ def execute(trace, ctx):
                 e = {t for t in exp if match(pat, t)}
                 got = {tkey(t) for t in ds.triples((T(pat[0]), T(pat[1]), T(pat[2])), context=Graph(store, gt))}
                 ctx.check(got == e, "C02.triples-context", lambda: f"{where}: ds.triples({pat}, context=<{k}>) missing={_srt(e - got)} extra={_srt(got - e)}", graph_empty=not exp, union=cfg["union"])
+                if pi == 0:
+                    # a property path as predicate, restricted to this graph (p|q and p*): answered from this graph only
+                    alt = AlternativePath(URIRef(EX + "p"), URIRef(EX + "q"))
+                    ea = {(t[0], t[2]) for t in exp if t[1] in (("u", EX + "p"), ("u", EX + "q"))}
+                    for form, carg in (("context=", Graph(store, gt)), ("quad", None)):
+                        if carg is not None:
+                            gota = {(key(a), key(c_)) for a, _, c_ in ds.triples((None, alt, None), context=carg)}
+                        else:
+                            gota = {(key(a), key(c_)) for a, _, c_ in ds.triples((None, alt, None, gt))}
+                        ctx.check(gota == ea, "C02.path-in-graph", lambda: f"{where}: ds.triples((ANY, p|q, ANY)) restricted to <{k}> ({form}) missing={_srt(ea - gota)} extra={_srt(gota - ea)}", graph_empty=not exp, union=cfg["union"])
                 gotq = {tkey((s, p, o)) + (norm_ctx(c),) for s, p, o, c in ds.quads((T(pat[0]), T(pat[1]), T(pat[2]), gt))}
                 eq = {t + (k,) for t in real if match(pat, t)}
                 ctx.check(
